@@ -280,6 +280,60 @@ pub fn eval(line: &str) -> String {
             }
             join(&outs, ",")
         }
+        // flowq <max_bytes> <max_msgs> <op>...  ops: inc:b:m dec:b:m new poll:i drop:i
+        // waiter futures are polled by hand with a no-op waker: r = ready, p = pending
+        "flowq" => {
+            use std::future::Future;
+            use std::pin::Pin;
+            use std::sync::Arc;
+            use std::task::{Context, Poll};
+            let fc = Arc::new(flow_control::create(toks[1].parse().unwrap(), toks[2].parse().unwrap()));
+            let waker = futures::task::noop_waker();
+            let mut cx = Context::from_waker(&waker);
+            let mut waiters: Vec<Option<Pin<Box<dyn Future<Output = ()>>>>> = Vec::new();
+            let mut outs = Vec::new();
+            for op in &toks[3..] {
+                let parts = op.split(':').collect::<Vec<_>>();
+                let o = match parts[0] {
+                    "inc" => {
+                        fc.inc(parts[1].parse().unwrap(), parts[2].parse().unwrap());
+                        "-"
+                    }
+                    "dec" => {
+                        fc.dec(parts[1].parse().unwrap(), parts[2].parse().unwrap());
+                        "-"
+                    }
+                    "new" => {
+                        let fc2 = Arc::clone(&fc);
+                        waiters.push(Some(Box::pin(async move { fc2.wait_for_available_space().await })));
+                        "-"
+                    }
+                    "poll" => {
+                        let i: usize = parts[1].parse().unwrap();
+                        match waiters.get_mut(i) {
+                            Some(Some(f)) => match f.as_mut().poll(&mut cx) {
+                                Poll::Ready(()) => {
+                                    waiters[i] = None;
+                                    "r"
+                                }
+                                Poll::Pending => "p",
+                            },
+                            _ => "x",
+                        }
+                    }
+                    "drop" => {
+                        let i: usize = parts[1].parse().unwrap();
+                        if i < waiters.len() {
+                            waiters[i] = None;
+                        }
+                        "-"
+                    }
+                    _ => "bad-op",
+                };
+                outs.push(o.to_string());
+            }
+            join(&outs, ",")
+        }
         _ => "bad-op".into(),
     }
 }
